@@ -141,6 +141,13 @@ func verifC11ParseRaw() {
 	_, _ = ParseConfigList(b)
 	vReach("raw")
 	if err1 == nil {
+		// every field lies inside the vector that declares it (reference walk over the framing)
+		ok, pk, suites, name := vRefConfigFrame(b)
+		vAssert(ok, "accepted config is well framed: every vector fits in its parent, suites vector is whole")
+		vAssert(vBytesEq(s1.PublicKey, pk) && vBytesEq(s1.PublicName, name) && len(s1.CipherSuites)*4 == len(suites), "fields are exactly the declared vectors")
+		for i, cs := range s1.CipherSuites {
+			vAssert(cs.KDF == uint16(suites[4*i])<<8|uint16(suites[4*i+1]) && cs.AEAD == uint16(suites[4*i+2])<<8|uint16(suites[4*i+3]), "suite read from inside the declared suites vector")
+		}
 		// non-interference: appending bytes after the declared length changes nothing
 		declared := 4 + (int(b[2])<<8 | int(b[3]))
 		tail := vBytes(2)
@@ -152,6 +159,43 @@ func verifC11ParseRaw() {
 		vAssert(err3 != nil, "truncated config rejected")
 		vReach("raw-valid")
 	}
+}
+
+// vRefConfigFrame walks the ECHConfig framing (draft-ietf-tls-esni section 4):
+// version(2) length(2) { id(1) kem(2) public_key<2> cipher_suites<2> max_name(1) public_name<1> ... }.
+func vRefConfigFrame(b []byte) (ok bool, pk, suites, name []byte) {
+	if len(b) < 4 {
+		return
+	}
+	n := int(b[2])<<8 | int(b[3])
+	if len(b) < 4+n {
+		return
+	}
+	c := b[4 : 4+n]
+	if len(c) < 5 {
+		return
+	}
+	l := int(c[3])<<8 | int(c[4])
+	c = c[5:]
+	if len(c) < l+2 {
+		return
+	}
+	pk, c = c[:l], c[l:]
+	l = int(c[0])<<8 | int(c[1])
+	c = c[2:]
+	if len(c) < l || l%4 != 0 {
+		return
+	}
+	suites, c = c[:l], c[l:]
+	if len(c) < 2 {
+		return
+	}
+	l = int(c[1])
+	c = c[2:]
+	if len(c) < l {
+		return
+	}
+	return true, pk, suites, c[:l]
 }
 
 // verifC11TLSClient: an independent consumer - crypto/tls's client - is given the
@@ -195,4 +239,21 @@ func vLongDNSName(n int) string {
 		b[n-1] = 'z'
 	}
 	return string(b)
+}
+
+// verifC11TLSServer: crypto/tls's server accepts the config (with its private
+// key) as an EncryptedClientHelloKey: when a ClientHello names the config id it
+// parses the config and the key without complaint.
+func verifC11TLSServer() {
+	names := []string{"a.b", "pub.example", vLongDNSName(240), vLongDNSName(255)}
+	name := names[vInt(0, len(names)-1)]
+	priv, pub := vKey(0)
+	id := vByte()
+	spec := ConfigSpec{Version: 0xfe0d, ID: id, KEM: 0x0020, PublicKey: pub,
+		CipherSuites: []CipherSuite{{1, 3}, {1, 2}, {1, 1}}, PublicName: []byte(name)}
+	cfg, err := spec.Bytes()
+	vAssert(err == nil, "Bytes")
+	out := vTLSServerTry(cfg, priv, id)
+	vAssert(out != "badconfig" && out != "badkey", "crypto/tls's server accepts the config and key as EncryptedClientHelloKeys")
+	vReach("tls-server")
 }
